@@ -435,6 +435,9 @@ def _reorient_carried_form(ctx, b, tm, ft, loop):
         p0 = U(loop_entry_value(b, h, pcar))
         alts = set(p0[1]) if p0[0] == "phi" else {p0}
         okp0 = any(x == ("agg", "std::option::Option", "Some", (("0", ("field", lst, "edge_id")),)) for x in alts) and all(x == ("agg", "std::option::Option", "None", ()) or contains(x, lambda q: q == ("field", lst, "edge_id")) for x in alts)
+        if not okp0 and len(alts) == 1:
+            # `fwd.last().map(|e| e.edge_id)`: Some(last.edge_id) exactly when there is a last edge (payload convention)
+            okp0 = norm_adaptors(F, list(alts)[0]) == ("field", lst, "edge_id")
         ctx.check(okp0, "ids:prefixed-by-last-forward-edge", "the first re-traversal does not have the forward route's last edge as its predecessor: %s" % short(p0)[:160], b.where(), detail="prev0 = fwd.last().map(edge_id)")
     if scar is not None:
         s0 = U(loop_entry_value(b, h, scar))
